@@ -279,7 +279,7 @@ def correspond(ctx: C.Ctx, cov: C.Coverage) -> List[C.Disagreement]:
             if what:
                 cov.nontrivial.add(f"{what[0]}.{what[1]}")
         # keyed (unordered) collections: members matched by key; order, missing / extra / re-keyed / changed members
-        for kind, lc, ha, hb, ma, mb, what in keyed_cases(ctx.seed, ctx.budget(240, 3000)):
+        for kind, lc, ha, hb, ma, mb, what in keyed_cases(ctx.seed, ctx.budget(160, 3000)):
             for x, y in ((ha, hb), (hb, ha)):
                 lines.append(keyed_line(T, kind, lc, x, y)); expect.append(("verdict", keyed_real(kind, x, y))); meta_.append(("keyed", (kind, what)))
             cov.evaluations += 1
